@@ -70,6 +70,11 @@ def directed_histories():
         D.append(dict(kind=kind, fs=fs, ch=ch, app=0, pre=[], sig=4, fd=8, lsb16=False,
                       ops=[("C", 1), ("U", 1, 0, 4, 0), ("U", 1, 4, 2, 1), ("Y", 1, 2), ("U", 1, 6, 2, 2), ("U", 2, 6, 2, 2), ("R", 1),
                            ("C", 3), ("U", 1, 0, 3, 0), ("U", 3, 0, 3, 0), ("U", 2, 8, 3, 0)], tokens={}, lens=None, modes=[0, 1, 2]))
+    # finding F14 on every run: projection decoders with 16-bit output, demixed sum beyond the 16-bit range while every stream stays
+    # within +-1 (caller matrix of 0.75s on the half-scale music stream); the float and 24-bit twins of the same history are not affected
+    D.append(dict(kind="P", fs=48000, ch=5, app=0, pre=[], sig=2, fd=8, lsb16=False, fmts=[0, 2, 1], stream=("E3", 1),
+                  ops=[("C", 1), ("C", 2), ("C", 3), ("U", 1, 0, 6, 0), ("U", 2, 0, 6, 0), ("U", 3, 0, 6, 0), ("Y", 1, 2), ("U", 2, 6, 3, 0),
+                       ("U", 1, 6, 3, 0)], tokens={}, lens=None, modes=[0, 1, 2]))
     return D
 
 
@@ -209,13 +214,16 @@ def instantiate(ops, rng, hid, pid, psidx, pinned=None):
     else:
         sids = psidx["E%d" % chlay]
     sid = rng.choice(sids)
+    if pinned.get("stream"):
+        sid = psidx[pinned["stream"][0]][pinned["stream"][1]]
+    fmts = list(pinned.get("fmts") or [])
     seedA, seedB = rng.randrange(1, 1 << 30), rng.randrange(1, 1 << 30)
     rot = rng.randrange(1, 5)
     settings, pos = {}, {}
     A = ["H %d %d" % (hid, seedA)]
 
     def create(o):
-        A.append("C %d %s %d %d %d %d" % (o, kind, rng.randrange(0, 3), fs, chlay, app))
+        A.append("C %d %s %d %d %d %d" % (o, kind, fmts.pop(0) if fmts else rng.randrange(0, 3), fs, chlay, app))
         settings[o] = {}
         pos[o] = 0
         for (r, v) in pre:
@@ -319,11 +327,11 @@ def parse_stats(r):
         m = re.match(r'<<"STATS", (.*)>>', p)
         if m:
             return [int(x) for x in m.group(1).split(",")]
-    return [0] * 9
+    return [0] * 8
 
 
 STAT_NAMES = ["full_key_comparisons", "erased_key_comparisons", "comparisons_on_copies", "comparisons_after_reset",
-              "comparisons_across_formats", "tolerated_F3_mismatches", "clipping_decodes_16bit_relation", "projection_relation_evaluated",
+              "comparisons_across_formats", "clipping_decodes_16bit_relation", "projection_relation_evaluated",
               "tolerated_projection_16bit_wraps"]
 
 
@@ -356,45 +364,24 @@ def extract_history(ipath, hid):
     return "".join([ln for ln in pl if ln.split()[1] in used] + out)
 
 
-# F3 (DESIGN section 8): provisional known-finding entry until the coordinator moves it into known_findings.json
-PROVISIONAL = [dict(property="C12", status="known", id="F3",
-                    key=dict(kind="encoder", inband_fec=1, party="an object that was reset after it had encoded",
-                             site="src/opus_encoder.c OPUS_RESET_STATE leaves silk_mode.LBRR_coded (in front of OPUS_ENCODER_RESET_START) set"),
-                    what=("after OPUS_RESET_STATE an encoder with in-band FEC enabled does not behave like a newly created one carrying the "
-                          "same settings: silk_mode.LBRR_coded, the hysteresis input of decide_fec(), is signal state stored in front of "
-                          "OPUS_ENCODER_RESET_START and survives the reset (e.g. 16 kHz mono VOIP, FEC on, loss 10 %: 15 frames at 40 kb/s, "
-                          "reset, 20 kb/s: the first packet already differs from the fresh encoder's)"))]
-
-
-PROVISIONAL.append(dict(property="C13", status="known", id="F-proj16",
-                        key=dict(kind="projection decoder", fmt="i16", cond="float output of the same call within 32 units of the 16-bit limits or beyond",
-                                 site="src/mapping_matrix.c mapping_matrix_multiply_channel_out_short: output[] += ... accumulates in opus_int16"),
-                        what=("opus_projection_decode() (16-bit) wraps instead of saturating when the demixed sum exceeds the 16-bit range: "
-                              "mapping_matrix_multiply_channel_out_short() adds each input channel's product into the opus_int16 output without "
-                              "saturation (e.g. four in-phase streams at half scale through a demixing matrix of 0.75s: float output 1.5, "
-                              "16-bit output wraps to negative values); the float and 24-bit entry points are not affected")))
-
-
-def finding_entry(fid):
-    """the known-finding entry with this id: from known_findings.json when it is listed there (status known -> the entry, any other
-    status -> None: a fixed finding is tolerated nowhere), else the provisional entry of this file"""
-    p = os.path.join(vf.ROOT, "known_findings.json")
-    if os.path.exists(p):
-        for k in json.load(open(p)).get("findings", []):
-            if k.get("id") == fid:
-                return k if k.get("status") == "known" else None
-    if os.environ.get("VERIF_NO_PROVISIONAL") == "1":     # used to verify a proposed repair: nothing is tolerated
+def finding_f14():
+    """finding F14 (the projection decoder's 16-bit output wraps): the entry of known_findings.json while it is listed as known.
+    Its key - projection decoder, 16-bit format, float twin within 32 units of the 16-bit limits or beyond - is the shape the trace
+    spec lets through under TolerateProj16; without the entry nothing is let through."""
+    if os.environ.get("VERIF_NO_KNOWN") == "1":      # used to verify a proposed repair: nothing is tolerated
         return None
-    for k in PROVISIONAL:
-        if k["id"] == fid:
-            return k
+    for k in vf.known_findings("C13"):
+        if k.get("id") == "F14":
+            key = k.get("key", {})
+            if key.get("kind") == "projection decoder" and key.get("fmt") == "i16":
+                return k
     return None
 
 
-def trace_cfg(pid, f3, pj):
+def trace_cfg(pid, pj):
     if pid == "C12":
-        return "ObjectsTrace_C12tol.cfg" if f3 else "ObjectsTrace_C12.cfg"
-    return "ObjectsTrace_C13%s.cfg" % ("tol" + ("F" if f3 and pj else "") + ("P" if pj else "") if (f3 or pj) else "")
+        return "ObjectsTrace_C12.cfg"
+    return "ObjectsTrace_C13tolP.cfg" if pj else "ObjectsTrace_C13.cfg"
 
 
 def model_runs(ctx, tier):
@@ -415,8 +402,8 @@ def model_runs(ctx, tier):
         if w.violation != "EquivOutputsEqual":
             raise vf.Infra("Objects_mc/%s: the departure from the design was not refuted (vacuous invariant)" % cfg)
     ctx.notes["model_witnesses_refuted"] = wit
-    ctx.notes["model_F3"] = ("Objects_mc_w_stale.cfg (ResetClearsStale = FALSE) is the pinned tree's reset: TLC's counterexample is the shape of "
-                             "finding F3 (create, FEC on, encode, reset versus a fresh object with FEC on)")
+    ctx.notes["model_F3"] = ("Objects_mc_w_stale.cfg (ResetClearsStale = FALSE) is the reset as it was before fix 4d916837: TLC's counterexample "
+                             "is the shape of finding F3 (create, FEC on, encode, reset versus a fresh object with FEC on)")
 
 
 def build_histories(ctx, tier, pid):
@@ -475,12 +462,11 @@ def for_variant(lines, vname):
 
 def run_check(ctx, pid):
     tier = ctx.tier
-    f3 = finding_entry("F3")
-    pj = finding_entry("F-proj16") if pid == "C13" else None
-    # with a known-finding entry the mismatches of exactly that shape are let through by TLC and counted
-    usecfg = trace_cfg(pid, f3, pj)
+    pj = finding_f14() if pid == "C13" else None
+    # with the known-finding entry the events of exactly that shape are let through by TLC, counted and printed
+    usecfg = trace_cfg(pid, pj)
     if ctx.replay:
-        return replay(ctx, pid, usecfg, f3, pj)
+        return replay(ctx, pid, usecfg, pj)
     import time
     t0 = time.time()
     model_runs(ctx, tier)
@@ -509,9 +495,9 @@ def run_check(ctx, pid):
             part = sel[k * per:(k + 1) * per]
             if part:
                 jobs.append((vname, cap, k, part))
-    totals = [0] * 9
+    totals = [0] * 8
     events = 0
-    nf3 = npj = 0
+    npj = 0
 
     def one(job):
         vname, cap, k, part = job
@@ -560,22 +546,7 @@ def run_check(ctx, pid):
         ctx.traces += len(part)
         for i in part:
             ctx.nontrivial.add(hash("\n".join(H[i][0][1:])))
-        if st[5] > 0:
-            # TLC let mismatches through that have exactly the shape of the known finding
-            first = None
-            for pr in tr.prints:
-                m = re.match(r'<<"TOLERATED", (\d+)>>', pr)
-                if m:
-                    first = int(m.group(1))
-                    break
-            hid, ev = history_of_line(out, first or 0)
-            if not any("OPUS_RESET_STATE" in k for k in ctx.known):
-                ctx.known_finding("%s [%d such mismatches in %s, first: %s]" % (f3["what"], st[5], name, (ev or "")[:260]))
-                if vf.REPO == "/repo" and hid is not None:
-                    with open(os.path.join(vf.REPLAY, "%s_known_F3.txt" % pid), "w") as f:
-                        f.write(minimal_replay(ips, hid))
-            nf3 += st[5]
-        if st[8] > 0:
+        if st[7] > 0:
             first = None
             for pr in tr.prints:
                 m = re.match(r'<<"TOLERATED_PROJ", (\d+)>>', pr)
@@ -584,11 +555,11 @@ def run_check(ctx, pid):
                     break
             hid, ev = history_of_line(out, first or 0)
             if not any("projection" in k for k in ctx.known):
-                ctx.known_finding("%s [%d such events in %s, first: %s]" % (pj["what"], st[8], name, (ev or "")[:420]))
+                ctx.known_finding("%s [%d such events in %s, first: %s]" % (pj["what"], st[7], name, (ev or "")[:420]))
                 if vf.REPO == "/repo" and hid is not None:
-                    with open(os.path.join(vf.REPLAY, "%s_known_F-proj16.txt" % pid), "w") as f:
+                    with open(os.path.join(vf.REPLAY, "%s_known_F14.txt" % pid), "w") as f:
                         f.write(minimal_replay(ips, hid))
-            npj += st[8]
+            npj += st[7]
         if len(ctx.samples) < 4:
             with open(out) as f:
                 for ln in f:
@@ -596,14 +567,12 @@ def run_check(ctx, pid):
                         ctx.sample(dict(variant=name, event=ln.strip()[:700]))
                         break
     ctx.evaluations = events
-    if nf3:
-        ctx.notes["known_F3_mismatches_let_through"] = nf3
     if npj:
-        ctx.notes["known_projection_16bit_events_let_through"] = npj
+        ctx.notes["known_F14_projection_16bit_events_let_through"] = npj
     ctx.notes["comparisons"] = dict(zip(STAT_NAMES, totals))
     ctx.notes["variants"] = ["%s%s" % (v, "" if c is None else " arch cap %d" % c) for v, c in variants]
     if not ctx.violations:
-        need = [0, 2, 3] if pid == "C12" else [1, 4, 6, 7]
+        need = [0, 2, 3] if pid == "C12" else [1, 4, 5, 6]
         for i in need:
             if totals[i] == 0:
                 raise vf.Infra("%s: vacuous run - no %s" % (pid, STAT_NAMES[i]))
@@ -642,7 +611,7 @@ def minimal_replay(ips, hid):
     return extract_history(ips[0], hid) + "#PASS B\n" + extract_history(ips[1], hid)
 
 
-def replay(ctx, pid, usecfg, f3, pj):
+def replay(ctx, pid, usecfg, pj):
     txt = open(ctx.replay).read()
     a, _, b = txt.partition("#PASS B\n")
     plines = [l for l in a.split("\n") if l.startswith("P ")]
@@ -661,9 +630,7 @@ def replay(ctx, pid, usecfg, f3, pj):
             ctx.violation("replayed history rejected (%s) at line %s: %s" % (vname, rej, vf.file_line(out, rej or 1)[:700]), replay_text=txt)
             continue
         st = parse_stats(tr)
-        if st[5] > 0 and f3:
-            ctx.known_finding(f3["what"] + " [%s]" % vname)
-        if st[8] > 0 and pj:
+        if st[7] > 0 and pj:
             ctx.known_finding(pj["what"] + " [%s]" % vname)
         ctx.traces += 1
     ctx.nontrivial_count = max(2, ctx.traces)
